@@ -322,6 +322,8 @@ def run(ctx):
             val = fv[0].value if fv else None
         if val is None:
             raise AnalysisError('Container.fill_to: cannot identify the amount passed to _add')
+        clamped = strip_clamp(val) is not val
+        val = strip_clamp(val)
 
         def positive_target(cc):
             return cc.op == 'lt' and zero(cc.left) and user_derived(cc.right) and isinstance(strip_refs(cc.right), Elt)
@@ -341,6 +343,16 @@ def run(ctx):
             return cc.op in ('le', 'lt') and isinstance(vv, ast.BinOp) and isinstance(vv.op, ast.Sub) and \
                 (cc.left is vv.right or same_value(cc.left, vv.right)) and (cc.right is vv.left or same_value(cc.right, vv.left))
         g2 = gate_with(b, nonneg_required, 'ValueError') or gate_with(b, nonneg_alt, 'ValueError')
+        if g2:
+            gate_rounded = any(unround(x)[1] for x in (g2[0].left, g2[0].right) if x is not None)
+            ok_c = (not gate_rounded) or clamped
+            ctx.ob('C03.R3', ft, s.lineno, 'fill_to: an amount admitted by the rounded gate cannot reach the add as a '
+                                           'negative number', ok_c,
+                   fact=('the gate compares the rounded amount; ' if gate_rounded else 'the gate compares the amount itself; ') +
+                        ('the amount is clamped with max(.., 0)' if clamped else 'the amount is handed on as computed'),
+                   why='a deficit within the internal precision (-1e-16) passes the rounded gate and is then refused by the '
+                       'sign gate of the add: filling to exactly the present quantity raises ValueError',
+                   key='rounded gate without clamp in fill_to')
         ctx.ob('C03.R3', ft, s.lineno, 'fill_to: required amount (target - current) must not be negative', bool(g2),
                fact=str(g2[0]) if g2 else f"amount added = {show(val, 60)}; no gate excludes a negative value",
                why='filling to less than is already present removes solvent instead of being refused',
@@ -545,11 +557,20 @@ def strip_sub(raw_arg, state, ff):
 
 
 def strip_clamp(v):
-    """`ratio = min(ratio, 1)` clamps representation error: look through it to the computed ratio."""
-    while isinstance(v, Ref) and isinstance(v.value, ast.Call) and getattr(v.value.func, 'id', '') == 'min' and \
-            len(v.value.args) == 2 and any(const_value(a) == 1 for a in v.value.args):
-        v = [a for a in v.value.args if const_value(a) != 1][0]
-    return v
+    """`ratio = min(ratio, 1)` / `required = max(required, 0)` clamp representation error after a rounded gate: look
+    through the clamp to the computed value."""
+    while True:
+        c = v.value if isinstance(v, Ref) else v
+        if isinstance(c, ast.Call) and isinstance(c.func, ast.Name) and len(c.args) == 2 and \
+                ((c.func.id == 'min' and any(const_value(a) == 1 for a in c.args)) or
+                 (c.func.id == 'max' and any(zero(a) for a in c.args))):
+            bound = 1 if c.func.id == 'min' else 0
+            rest = [a for a in c.args if const_value(a) != bound or isinstance(const_value(a), bool)]
+            if len(rest) != 1:
+                return v
+            v = rest[0]
+            continue
+        return v
 
 
 def find_ratio(ff):
